@@ -166,6 +166,18 @@ CHECKS = {
              "and by re-encoding 870 pinned value assignments and comparing enum members by name.",
         note="identity is positional and numeric: names and `blocking` are not pinned (DESIGN 8.4)",
         design="7/C19"),
+    "C10": dict(
+        technique="Lean 4 proof: fragment-buffer model of frame_received; reassembly theorem for every train "
+                  "first::mids++[last] from any pending state, restart theorems, link to the fragmenter (C09); "
+                  "differential through the real transport entry and real listeners",
+        text="Kernel-checked: for every command header and payload, every split into first/middle/last fragments of any "
+             "sizes and any stale pending fragments, exactly one message with that header and payload is handed on when "
+             "the last fragment arrives and nothing stays pending; a first-flagged frame always discards pending "
+             "fragments; the host's own fragmenter output is such a train. Tied by injecting bytes at the real "
+             "transport (random splits, the host's own fragments, interrupted sequences, all chunkings) and observing "
+             "real listeners, against Rx + reassembly + table + from_frame in the model.",
+        note="frames as handed up by the receiver (C01/C06); bytes-to-frames by the C05 round-trip theorems and correspondence",
+        design="7/C10"),
 }
 
 NOT_YET = "check not built yet in this revision of /verif (planned, see DESIGN.md section 7)"
